@@ -123,6 +123,9 @@ def _case(draw):
     cuts = draw(gens.cuts())
     if fe in frontends.DATAGRAM and draw(st.integers(0, 3)) == 0:
         cuts = ['at', [0, 0, draw(st.integers(0, 400))]]       # leading zero-length datagram(s)
+    if len(stream) > 600 and cuts[0] != 'whole':
+        # kilobytes arrive in reads of a realistic size (thousands of one-byte reads only make the case slow)
+        cuts = ['every', 97 + len(stream) % 400]
     return {'frontend': fe, 'framing': framing, 'uid': uid, 'single': single, 'stream': stream.hex(), 'cuts': cuts}
 
 
